@@ -277,7 +277,9 @@ func (x *Exec) freshResult(st *State, sig *types.Signature, prefix string) (Val,
 func (x *Exec) havocAll(st *State) {
 	x.ensureImmutableHeaps()
 	for name, h := range st.heaps {
-		if x.immutableHeaps[name] {
+		if x.immutableHeaps[name] || name == "Gf mstate" || strings.HasPrefix(name, "Hf sync.") {
+			// lock ownership is restored by every callee (it releases what it acquires);
+			// the fields of sync objects are not reassigned by callees
 			continue
 		}
 		st.heaps[name] = fresh(name, h.Sort)
@@ -952,6 +954,9 @@ func (x *Exec) builtin(st *State, fr *Frame, b *ssa.Builtin, c *ssa.CallCommon, 
 	case "copy":
 		return x.doCopy(st, fr, c, resT, pos)
 	case "delete":
+		if pv := x.val(st, c.Args[0]); pv.prot != nil {
+			x.lockCheck(st, fr, pv.prot, true, pos, "delete from the map in "+pv.prot.field)
+		}
 		m := x.term(st, c.Args[0])
 		k := x.term(st, c.Args[1])
 		mt := c.Args[0].Type()
